@@ -1,0 +1,10 @@
+//go:build verif
+
+package retry
+
+// VerifSetRandFloat64 replaces the jitter source and returns a restore function.
+func VerifSetRandFloat64(f func() float64) (restore func()) {
+	org := randFloat64
+	randFloat64 = f
+	return func() { randFloat64 = org }
+}
